@@ -610,6 +610,7 @@ func runCase(src srcKind) func(Case) vrt.Verdict {
 		if zeroSupplied {
 			lab["zero-value-supplied"] = true
 		}
+		emptyLabels(ev.pats, c.Supply, lab)
 		if len(ev.classASupplied) > 0 {
 			lab["generic-alias+source-primary-supplied"] = true
 		}
@@ -675,7 +676,7 @@ func runCase(src srcKind) func(Case) vrt.Verdict {
 func rule(src string) string {
 	return "config struct types from the shape grammar restricted to leaf types every alias-capable source reads (scalars of all integer widths, floats, bool, string, duration, []string, []int, map[string]string, string set), nested struct / pointer-struct fields to depth 3, <=4 fields per struct; " +
 		"each field (leaf or struct-typed, any depth) independently gets an explicit dials tag (single word / camelCase / snake_case / kebab-case, globally unique words) or stays untagged, and a dialsalias tag with probability 1/2 (leaves) or 2/5 (struct-typed fields; at most two aliased structs on one path and no further aliases once the type has ~100 expanded names, because every aliased struct doubles the names below it); leaves not below an aliased struct may also get the source's own primary and/or alias tag (dialsenv[alias], dialsflag[alias], dialspflag[alias]; for decoders the tags of all three are noise); the combination 'source-specific primary + dialsalias, no source-specific alias' is allowed in one case in six; tag order is shuffled; Go field names are extended where needed so that flattened name concatenations stay unique. " +
-		"Per aliased field one of neither / primary only / alias only / both (half of the cases exclude 'both'); an aliased struct-typed field duplicates its subtree, 'supplied under a name' = at least one leaf of that copy supplied; other leaves set or unset at random; one value in five is the zero value of its type. " +
+		"Per aliased field one of neither / primary only / alias only / both (half of the cases exclude 'both'); an aliased struct-typed field duplicates its subtree, 'supplied under a name' = at least one leaf of that copy supplied; other leaves set or unset at random; one scalar value in five is the zero value of its type and one collection value in four is an explicitly empty non-nil collection (NAME=\"\", -name=, [] / {}), which must count as set exactly like any other value (nil vs empty is compared exactly). " +
 		"Executed against " + src + " with names known by construction (env: PREFIX + UPPER_SNAKE join of words; flags: '-' join of tags / field words; decoders: tag path, documents rendered by the harness). " +
 		"Oracle: some field supplied under both names => an error whose text contains the quoted Go name of such a field; otherwise no error and the returned value equals the model leaf by leaf (value under either name lands, neither => nil, nothing else set). " +
 		"non-trivial = >=2 aliased field instances at different depths with different patterns; distinct = distinct case JSON"
